@@ -4,8 +4,6 @@ From Coq Require Import List Arith Lia Bool.
 Import ListNotations.
 Require Import SendQueue.
 
-Arguments somes : simpl never.
-
 (* ---- list facts ---- *)
 Lemma somes_app a b : somes (a ++ b) = somes a ++ somes b.
 Proof. unfold somes. now rewrite flat_map_app. Qed.
@@ -39,6 +37,8 @@ Proof. destruct k; cbn; [|discriminate]. destruct p; cbn; [auto|discriminate]. Q
 
 Lemma shape_short k (p : list nat) : length (repeat (@None nat) k ++ map Some p) <= k -> p = [].
 Proof. rewrite app_length, repeat_length, map_length. destruct p; cbn; [auto|lia]. Qed.
+
+Arguments somes : simpl never.
 
 (* ---- the invariant ---- *)
 Definition call_ok (c : list nat * list nat * result) : Prop :=
@@ -176,16 +176,16 @@ Proof.
   cbn [step]. destruct (dr s) as [[i [f|]]|] eqn:Ed; try exact HI.
   destruct H0 as (He & Ha & Ho & Hc & Hd & Hf & Hm & Hk).
   assert (Hq : m <> Direct) by (intros E; destruct (Hm E); congruence).
-  cbn [hand dph] in Ha.
+  rewrite ?Ed in Ha. cbn [hand dph] in Ha.
   destruct ok.
   - apply inv_of_inv0; cbn; [|apply (holder_keep s); auto].
     unfold Inv0; cbn. rewrite map_app. cbn. rewrite <- app_assoc. cbn.
     split; [exact He|]. split; [exact Ha|]. split; [|split; [exact Hc|split; [|split; [|split; [|exact Hk]]]]].
     + intros H. destruct (Ho H) as ((k & p & Es & Hk1 & Hk2) & Hdr). split; [|exact Hdr].
       exists k, p. cbn. split; [exact Es|]. split.
-      * intros d E. inversion E; subst. cbn. now apply (Hk1 _ eq_refl).
+      * intros d E. inversion E; subst. cbn. now apply (Hk1 _ Ed).
       * intros; discriminate.
-    + intros d E. inversion E; subst. cbn. apply (Hd _ eq_refl).
+    + intros d E. inversion E; subst. cbn. apply (Hd _ Ed).
     + intros H. apply Forall_app. split; auto.
     + intros H. contradiction.
   - apply inv_of_inv0; cbn; [|apply (holder_keep s); auto].
@@ -205,96 +205,311 @@ Proof.
   destruct (dr s) as [[i [f|]]|] eqn:Ed; try exact HI.
   destruct H0 as (He & Ha & Ho & Hc & Hd & Hf & Hm & Hk).
   assert (Hq : m <> Direct) by (intros E; destruct (Hm E); congruence).
-  cbn [hand dph cur] in Ha.
+  rewrite ?Eh, ?Ed in Ha. cbn [hand dph cur] in Ha. cbn [app] in Ha.
   destruct (closed s) eqn:Ec.
   - apply inv_of_inv0; cbn; [|intros; discriminate].
-    unfold Inv0; cbn. rewrite Ec.
-    repeat split; auto; try (intros; discriminate); try contradiction.
+    unfold Inv0; cbn.
+    split; [exact He|]. split; [exact Ha|]. split; [intros; discriminate|]. split; [intros _; now apply Hc|].
+    split; [intros; discriminate|]. split; [exact Hf|]. split; [intros; contradiction|exact Hk].
   - destruct (Ho eq_refl) as ((k & p & Es & Hk1 & Hk2) & Hdr).
-    pose proof (Hk1 _ eq_refl) as Ek. cbn in Ek. subst k.
+    pose proof (Hk1 _ Ed) as Ek. cbn in Ek. subst k.
     destruct (length (slots s) <=? i) eqn:El.
     + apply Nat.leb_le in El. rewrite Es in El. apply shape_short in El. subst p.
-      rewrite Es, somes_shape in Ha. cbn in Ha.
+      rewrite Es, somes_shape in Ha. cbn [app] in Ha.
       apply inv_of_inv0; cbn; [|intros; discriminate].
-      unfold Inv0, shape; cbn. rewrite Ec.
-      repeat split; auto; try (intros; discriminate); try contradiction.
-      exists 0, []. cbn. repeat split; auto. intros; discriminate.
+      unfold Inv0, shape; cbn.
+      split; [exact He|]. split; [exact Ha|]. split.
+      { intros _. split; [|exact Hdr]. exists 0, []. cbn. repeat split; auto. intros; discriminate. }
+      split; [intros; discriminate|].
+      split; [intros; discriminate|]. split; [exact Hf|]. split; [intros; contradiction|exact Hk].
     + apply Nat.leb_gt in El.
       destruct p as [|f p].
       { rewrite Es, app_length, repeat_length in El. cbn in El. lia. }
       rewrite Es, somes_shape in Ha.
       cbn [map] in Es. rewrite Es, nth_shape, set_nth_shape.
       apply inv_of_inv0; cbn; [|intros; discriminate].
-      unfold Inv0, shape; cbn. rewrite Ec.
-      change (None :: repeat None i) with (repeat (@None nat) (S i)).
+      unfold Inv0, shape; cbn.
+      change (None :: repeat None i ++ map Some p) with (repeat (@None nat) (S i) ++ map Some p).
       rewrite somes_shape.
-      repeat split; auto; try (intros; discriminate); try contradiction.
-      * exists (S i), p. repeat split; auto.
-        -- intros d E. inversion E; subst. reflexivity.
-        -- intros; discriminate.
-      * intros d E. inversion E; subst. cbn. lia.
+      split; [exact He|]. split; [exact Ha|]. split.
+      { intros _. split; [|exact Hdr]. exists (S i), p. repeat split; auto.
+        - intros d E. inversion E; subst. reflexivity.
+        - intros; discriminate. }
+      split; [intros; discriminate|].
+      split; [intros d E; inversion E; subst; cbn; lia|].
+      split; [exact Hf|]. split; [intros; contradiction|exact Hk].
 Qed.
 
-Lemma frame_inv s ok : Inv m s -> Inv m (step m maxq s (Frame ok)).
+End Step.
+
+Lemma inv0_open m s acc :
+  extra s = 0 ->
+  concat (map (fun c => snd (fst c)) (calls s)) ++ acc = map fst (attempted s) ++ hand (dr s) ++ somes (slots s) ++ dropped s ->
+  closed s = false -> shape s -> dropped s = [] ->
+  (forall d, dr s = Some d -> 1 <= di d) ->
+  (failed s = false -> Forall (fun x => snd x = true) (attempted s)) ->
+  (m = Direct -> slots s = [] /\ dr s = None) ->
+  Forall call_ok (calls s) ->
+  Inv0 m s acc.
 Proof.
-  intros HI. pose proof (inv_inv0 s HI) as H0.
+  intros H1 H2 H3 H4 H5 H6 H7 H8 H9. unfold Inv0. repeat split; auto; try (apply H8; assumption).
+  intros E. rewrite H3 in E. discriminate.
+Qed.
+
+Lemma frame_inv m maxq s ok : Inv m s -> Inv m (step m maxq s (Frame ok)).
+Proof.
+  intros HI. pose proof (inv_inv0 m s HI) as H0.
   pose proof HI as (He & Ha & Ho & Hc & Hd & Hh & Hf & Hm & Hk).
   cbn [step]. destruct (holder s) as [c|] eqn:Eh; [|exact HI].
   destruct (Hh _ eq_refl) as (Hcl & Hfs & Hne).
   destruct (crest c) as [|f rest] eqn:Er; [exact HI|]. cbn [cur] in H0.
-  destruct (Ho Hcl) as ((k & p & Es & Hk1 & Hk2) & Hdr).
-  destruct H0 as (He0 & Ha0 & Ho0 & Hc0 & Hd0 & Hf0 & Hm0 & Hk0).
+  destruct (Ho Hcl) as (Hsh & Hdr).
+  destruct H0 as (_ & Ha0 & _).
   assert (Hok : forall r, r <> ROk -> r <> RClosed -> call_ok (cfs c, cacc c, r)).
   { intros r R1 R2. cbn. repeat split; try contradiction.
     - now exists (f :: rest).
     - rewrite Hfs. destruct (cacc c); discriminate. }
-  destruct m eqn:Em.
+  assert (Hsame : Inv0 m s (cacc c)) by (apply inv0_open; auto).
+  assert (Hc' : c = {| cfs := cfs c; cacc := cacc c; crest := crest c |}) by (destruct c; reflexivity).
+  destruct m.
   - (* direct *)
     destruct (Hm eq_refl) as (Hs0 & Hdn).
     destruct ok.
     + apply advance_call_inv; auto.
-      unfold Inv0, shape in *; cbn. rewrite Hs0, Hdn, Hdr in *. cbn in *.
-      rewrite map_app. cbn. rewrite !app_nil_r in *. rewrite app_assoc, Ha0.
-      repeat split; auto; try (intros; discriminate).
-      * exists 0, []. cbn. repeat split; auto. intros; discriminate.
+      rewrite Hs0, Hdn, Hdr in Ha0. cbn in Ha0. rewrite app_nil_r in Ha0.
+      apply inv0_open; cbn; [exact He| |exact Hcl| |exact Hdr|exact Hd| |exact Hm|exact Hk].
+      * rewrite Hs0, Hdn, Hdr. cbn. rewrite map_app, app_nil_r, app_assoc, Ha0. reflexivity.
+      * destruct Hsh as (k & p & Es & Hk1 & Hk2). exists k, p. cbn. auto.
       * intros H. apply Forall_app. split; auto.
-    + replace c with {| cfs := cfs c; cacc := cacc c; crest := crest c |} by (destruct c; reflexivity).
-      apply finish_inv; [|apply Hok; discriminate].
-      unfold Inv0, shape in *; cbn.
-      repeat split; auto; try (intros; discriminate).
-      intros _. exists k, p. repeat split; auto. intros; discriminate.
+    + rewrite Hc'. apply finish_inv; [|apply Hok; discriminate].
+      apply inv0_open; cbn; [exact He|exact Ha0|exact Hcl| |exact Hdr|exact Hd| |exact Hm|exact Hk].
+      * destruct Hsh as (k & p & Es & Hk1 & Hk2). exists k, p. cbn. repeat split; auto; try (intros; discriminate).
+      * intros; discriminate.
   - (* queued *)
     destruct (full maxq s).
-    { replace c with {| cfs := cfs c; cacc := cacc c; crest := crest c |} by (destruct c; reflexivity).
-      apply finish_inv; [|apply Hok; discriminate].
-      unfold Inv0; repeat split; auto. }
+    { rewrite Hc'. apply finish_inv; [exact Hsame|apply Hok; discriminate]. }
+    destruct Hsh as (k & p & Es & Hk1 & Hk2).
     destruct (slots s) as [|x l] eqn:Esl.
     + (* head *)
       symmetry in Es. apply shape_nil in Es as (-> & ->).
       assert (Hn : dr s = None).
       { destruct (dr s) as [d|] eqn:Ed; auto. pose proof (Hk1 _ eq_refl). pose proof (Hd _ eq_refl). lia. }
       rewrite Hn. apply advance_call_inv; auto.
-      unfold Inv0, shape in *; cbn. rewrite Hn, Hdr, Esl in *. cbn in *.
-      rewrite !app_nil_r in *. rewrite app_assoc, Ha0.
-      repeat split; auto; try (intros; discriminate).
+      rewrite Hn, Hdr in Ha0. cbn in Ha0. rewrite app_nil_r in Ha0.
+      apply inv0_open; cbn; [exact He| |exact Hcl| |exact Hdr| |exact Hf|intros; discriminate|exact Hk].
+      * rewrite Hdr, app_assoc, Ha0. reflexivity.
       * exists 1, []. cbn. repeat split; auto.
         -- intros d H. inversion H; subst. reflexivity.
         -- intros; discriminate.
       * intros d H. inversion H; subst. cbn. lia.
     + (* behind a live (or dead) drainer *)
       apply advance_call_inv; auto.
-      unfold Inv0, shape in *; cbn. rewrite Esl, Hdr in *.
-      rewrite somes_app. cbn [somes flat_map app]. rewrite !app_nil_r in *.
-      rewrite app_assoc, Ha0, <- !app_assoc.
-      repeat split; auto; try (intros; discriminate).
-      * exists k, (p ++ [f]). rewrite map_app, app_assoc, <- Es. cbn. repeat split; auto.
+      rewrite Hdr, app_nil_r in Ha0.
+      apply inv0_open; cbn; [exact He| |exact Hcl| |exact Hdr|exact Hd|exact Hf|intros; discriminate|exact Hk].
+      * change (x :: l ++ [Some f]) with ((x :: l) ++ [Some f]).
+        rewrite Hdr, somes_app, app_assoc, Ha0, app_nil_r, <- !app_assoc. reflexivity.
+      * exists k, (p ++ [f]). cbn. rewrite map_app, app_assoc, <- Es. cbn. repeat split; auto.
         intros Hn Hff. specialize (Hk2 Hn Hff). discriminate.
-      * intros H. rewrite Hcl in H. discriminate.
 Qed.
 
-Theorem step_inv s a : Inv m s -> Inv m (step m maxq s a).
+Theorem step_inv m maxq s a : Inv m s -> Inv m (step m maxq s a).
 Proof.
   destruct a; [apply begin_inv|apply frame_inv|apply dwrite_inv|apply dadvance_inv|apply close_inv].
 Qed.
 
-End Step.
+
+Lemma fold_inv m maxq acts s : Inv m s -> Inv m (fold_left (step m maxq) acts s).
+Proof. revert s. induction acts as [|a acts IH]; intros s H; cbn; auto. apply IH. now apply step_inv. Qed.
+
+Theorem inv_all m maxq acts : Inv m (run m maxq acts).
+Proof. apply fold_inv, init_inv. Qed.
+
+(* ---- consequences ---- *)
+Lemma wire_all_ok (att : list (nat * bool)) :
+  Forall (fun x => snd x = true) att -> map fst (filter snd att) = map fst att.
+Proof.
+  induction att as [|[f b] att IH]; intros H; cbn; auto.
+  inversion H as [|? ? Hb Hr]; subst. cbn in Hb. subst b. cbn. f_equal. auto.
+Qed.
+
+(* every frame handed to the socket was accepted, in acceptance order *)
+Theorem attempted_prefix m maxq acts :
+  let s := run m maxq acts in exists rest, accepted s = map fst (attempted s) ++ rest.
+Proof.
+  intros s. destruct (inv_all m maxq acts) as (_ & Ha & _). fold s in Ha. rewrite Ha. eauto.
+Qed.
+
+(* without a socket error the wire is a prefix of the accepted frames; what is not yet on the wire is the frame in the
+   drainer's hand, then the queued frames, then (after CloseAndClean) the frames that were freed unwritten *)
+Theorem whole m maxq acts :
+  let s := run m maxq acts in
+  failed s = false -> accepted s = wire s ++ hand (dr s) ++ somes (slots s) ++ dropped s.
+Proof.
+  intros s Hf. destruct (inv_all m maxq acts) as (_ & Ha & _ & _ & _ & _ & Hok & _). fold s in Ha, Hok.
+  unfold wire. rewrite (wire_all_ok _ (Hok Hf)). exact Ha.
+Qed.
+
+Theorem calls_ok m maxq acts : Forall call_ok (calls (run m maxq acts)).
+Proof. now destruct (inv_all m maxq acts) as (_ & _ & _ & _ & _ & _ & _ & _ & Hk). Qed.
+
+(* open, no socket error, no drainer alive: everything accepted is on the wire, in order, once *)
+Theorem quiescent_wire m maxq acts :
+  let s := run m maxq acts in
+  closed s = false -> failed s = false -> dr s = None -> wire s = accepted s.
+Proof.
+  intros s Hc Hf Hd. pose proof (whole m maxq acts Hf) as Hw. fold s in Hw.
+  destruct (inv_all m maxq acts) as (_ & _ & Ho & _). fold s in Ho.
+  destruct (Ho Hc) as ((k & p & Es & _ & Hk2) & Hdr).
+  rewrite Hw, Hd, (Hk2 Hd Hf), Hdr. cbn. now rewrite app_nil_r.
+Qed.
+
+Theorem one_drainer m maxq acts :
+  let s := run m maxq acts in extra s = 0 /\ (m = Direct -> dr s = None /\ slots s = []).
+Proof.
+  intros s. destruct (inv_all m maxq acts) as (He & _ & _ & _ & _ & _ & _ & Hm & _). fold s in He, Hm.
+  split; auto. intros E. destruct (Hm E). auto.
+Qed.
+
+(* a live drainer always has something in hand or a slot index >= 1; the queue is empty iff no drainer was ever
+   started since the last hand-over (open, no socket error) *)
+Theorem drainer_iff_nonempty m maxq acts :
+  let s := run m maxq acts in
+  closed s = false -> failed s = false -> (dr s = None <-> slots s = []).
+Proof.
+  intros s Hc Hf. destruct (inv_all m maxq acts) as (_ & _ & Ho & _ & Hd & _). fold s in Ho, Hd.
+  destruct (Ho Hc) as ((k & p & Es & Hk1 & Hk2) & _). split; [intros H; auto|].
+  intros E. destruct (dr s) as [d|] eqn:Ed; auto.
+  rewrite E in Es. symmetry in Es. apply shape_nil in Es as (-> & _).
+  pose proof (Hk1 _ eq_refl). pose proof (Hd _ eq_refl). lia.
+Qed.
+
+(* refused after close *)
+Lemma begin_closed m maxq s f fs :
+  holder s = None -> closed s = true ->
+  let s' := step m maxq s (Begin (f :: fs)) in
+  accepted s' = accepted s /\ calls s' = calls s ++ [(f :: fs, [], RClosed)] /\ slots s' = slots s /\ dr s' = dr s.
+Proof.
+  intros Hh Hc. cbn. rewrite Hh, Hc. unfold accepted; cbn. rewrite Hh, concat_map_snoc. cbn.
+  now rewrite !app_nil_r.
+Qed.
+
+(* ---- the drainer left alone (mutex free, socket accepting) empties the queue ---- *)
+Lemma set_nth_length l i : length (set_nth l i) = length l.
+Proof. revert i. induction l as [|x l IH]; intros [|i]; cbn; auto. Qed.
+
+Definition drain_measure (s : st) : nat :=
+  match dr s with
+  | None => 0
+  | Some {| di := i; dph := Writing _ |} => 2 * (S (length (slots s)) - i) + 2
+  | Some {| di := i; dph := AtLock |} => 2 * (S (length (slots s)) - i) + 1
+  end.
+
+Definition next_action (s : st) : action :=
+  match dr s with
+  | Some {| dph := Writing _ |} => DWrite true
+  | _ => DAdvance
+  end.
+
+Definition drainer_action (a : action) : Prop := a = DWrite true \/ a = DAdvance.
+
+Lemma next_is_drainer s : drainer_action (next_action s).
+Proof. unfold next_action, drainer_action. destruct (dr s) as [[i [f|]]|]; auto. Qed.
+
+Lemma next_keeps_holder m maxq s : holder s = None -> holder (step m maxq s (next_action s)) = None.
+Proof.
+  intros H. unfold next_action. destruct (dr s) as [[i [f|]]|] eqn:Ed; cbn; rewrite ?H, ?Ed; cbn; auto.
+  destruct (closed s); cbn; auto. destruct (length (slots s) <=? i); cbn; auto.
+  destruct (nth i (slots s) None); cbn; auto.
+Qed.
+
+Lemma next_decreases m maxq s :
+  holder s = None -> dr s <> None -> drain_measure (step m maxq s (next_action s)) < drain_measure s.
+Proof.
+  intros H Hn. unfold next_action, drain_measure.
+  destruct (dr s) as [[i [f|]]|] eqn:Ed; [| |congruence]; cbn [step]; rewrite ?H, ?Ed; cbn -[Nat.mul Nat.sub].
+  - lia.
+  - destruct (closed s); cbn -[Nat.mul Nat.sub]; [lia|].
+    destruct (length (slots s) <=? i) eqn:El; cbn -[Nat.mul Nat.sub]; [lia|]. apply Nat.leb_gt in El.
+    destruct (nth i (slots s) None); cbn -[Nat.mul Nat.sub]; [|lia]. rewrite set_nth_length. lia.
+Qed.
+
+Fixpoint drain (m : mode) (maxq : nat) (fuel : nat) (s : st) : list action :=
+  match fuel with
+  | O => []
+  | S f => match dr s with
+           | None => []
+           | Some _ => next_action s :: drain m maxq f (step m maxq s (next_action s))
+           end
+  end.
+
+Lemma drain_all_drainer m maxq fuel s : Forall drainer_action (drain m maxq fuel s).
+Proof.
+  revert s. induction fuel as [|f IH]; intros s; cbn; [constructor|].
+  destruct (dr s); constructor; auto using next_is_drainer.
+Qed.
+
+Lemma drain_reaches m maxq fuel s :
+  holder s = None -> drain_measure s <= fuel -> dr (fold_left (step m maxq) (drain m maxq fuel s) s) = None.
+Proof.
+  revert s. induction fuel as [|f IH]; intros s Hh Hm.
+  - cbn. unfold drain_measure in Hm. destruct (dr s) as [[i [g|]]|]; auto; lia.
+  - cbn [drain]. destruct (dr s) eqn:Ed; [|cbn; auto].
+    cbn [fold_left]. apply IH; [now apply next_keeps_holder|].
+    assert (Hn : dr s <> None) by congruence.
+    pose proof (next_decreases m maxq s Hh Hn). lia.
+Qed.
+
+Theorem drains m maxq acts :
+  holder (run m maxq acts) = None ->
+  exists more, Forall drainer_action more /\ dr (run m maxq (acts ++ more)) = None.
+Proof.
+  intros Hh. set (s := run m maxq acts).
+  exists (drain m maxq (drain_measure s) s). split; [apply drain_all_drainer|].
+  unfold run. rewrite fold_left_app. apply drain_reaches; [exact Hh|apply Nat.le_refl].
+Qed.
+
+(* drainer steps with a working socket neither close nor fail nor accept anything *)
+Lemma drainer_step_keeps m maxq s a :
+  drainer_action a ->
+  closed (step m maxq s a) = closed s /\ failed (step m maxq s a) = failed s /\
+  calls (step m maxq s a) = calls s /\ holder (step m maxq s a) = holder s.
+Proof.
+  intros [->| ->]; cbn.
+  - destruct (dr s) as [[i [f|]]|]; cbn; auto.
+  - destruct (holder s) eqn:Eh; cbn; auto.
+    destruct (dr s) as [[i [f|]]|]; cbn; auto.
+    destruct (closed s); cbn; auto. destruct (length (slots s) <=? i); cbn; auto.
+    destruct (nth i (slots s) None); cbn; auto.
+Qed.
+
+Lemma drainer_steps_keep m maxq more s :
+  Forall drainer_action more ->
+  let s' := fold_left (step m maxq) more s in
+  closed s' = closed s /\ failed s' = failed s /\ calls s' = calls s /\ holder s' = holder s.
+Proof.
+  revert s. induction more as [|a more IH]; intros s H; cbn; auto.
+  inversion H as [|? ? Ha Hr]; subst.
+  destruct (drainer_step_keeps m maxq s a Ha) as (E1 & E2 & E3 & E4).
+  destruct (IH (step m maxq s a) Hr) as (F1 & F2 & F3 & F4). cbn in *.
+  rewrite F1, F2, F3, F4. auto.
+Qed.
+
+(* no accepted frame is stranded: while open and without socket error, the drainer's own steps put every accepted
+   frame on the wire *)
+Theorem all_written m maxq acts :
+  let s := run m maxq acts in
+  holder s = None -> closed s = false -> failed s = false ->
+  exists more, Forall drainer_action more /\
+    let s' := run m maxq (acts ++ more) in
+    dr s' = None /\ wire s' = accepted s /\ calls s' = calls s.
+Proof.
+  intros s Hh Hc Hf. destruct (drains m maxq acts Hh) as (more & Hm & Hd).
+  exists more. split; auto. cbn zeta.
+  pose proof (drainer_steps_keep m maxq more s Hm) as (E1 & E2 & E3 & E4).
+  assert (Er : run m maxq (acts ++ more) = fold_left (step m maxq) more s) by (unfold run, s; now rewrite fold_left_app).
+  rewrite Er in *. cbn zeta in *.
+  split; auto. split; auto.
+  pose proof (quiescent_wire m maxq (acts ++ more)) as Q. cbn zeta in Q. rewrite Er in Q.
+  rewrite Q; try congruence.
+  unfold accepted. rewrite E3, E4. reflexivity.
+Qed.
